@@ -510,8 +510,8 @@ def parse_json_object(body):
 
 
 def reply_shape_ok(case, obj):
-    if case["path"] == "ping":
-        return True
+    if case["path"] == "ping" or (case.get("fam") == "raw" and case.get("body") == "hugeheader"):
+        return True      # GET /ping (also the one carrying an oversized header, when the server chose to serve it): empty body
     if obj is None or set(obj.keys()) != set(case["reply_keys"]):
         return False
     for k, v in obj.items():
